@@ -72,6 +72,11 @@ CLAIMED = {
    "DESIGN.md §6 C14",
    "textual equality of generated code; Lean kernel for the optimizer equality; differential on mutated real grammars.",
    "regeneration equality + kernel-checked optimizer equality on the regenerated grammar + four-way differential"),
+ "C18": ("other",
+   "RFC 8259's ABNF is transcribed into an executable Lean recogniser that also builds the document tree (PestModel.Json.jsonText); json.pest is REGENERATED into a Lean value on every run and its reference denotation must coincide with the RFC transcription; JsonParser is compared with both (acceptance and full token tree with byte spans) EXHAUSTIVELY on all strings up to a length bound over a JSON-heavy alphabet, on near-misses and on generated documents, with a second independent RFC recogniser in Rust as oracle. The equivalence theorem (grammar denotation = RFC for all strings) is being attempted; until it lands the level is other.",
+   "DESIGN.md §6 C18",
+   "two independent transcriptions of the ABNF (Lean, Rust); exhaustive-to-length differential; regenerated grammar.",
+   "Lean 4 RFC 8259 transcription + reference denotation of the regenerated grammar + exhaustive-to-length differential against JsonParser"),
 }
 REASON_TODO = "not claimed yet: machinery for this property is not built in the committed tree (planned in DESIGN.md §6); no check is registered rather than an unsound one"
 
